@@ -36,4 +36,5 @@ def run(ctx):
         xml_rules.type_attributes(ctx, prog, "R4")
         xml_rules.escaping_gate(ctx, prog, "R5")
         xml_rules.raw_xml_identity(ctx, prog, "R6")
+        xml_rules.string_values_unchanged(ctx, prog, "R6")
     ctx.cfg = None
